@@ -346,7 +346,9 @@ func blobHostiles(r *mon.Run, blob []byte, baseName string, idx int) []hostile {
 			add(append([]byte(nil), blob[:n.Start]...), "truncate-tlv", "start")
 			add(append([]byte(nil), blob[:n.Start+n.HdrLen]...), "truncate-tlv", "after-header")
 			// length edits
-			for _, lb := range [][]byte{{0x80}, {0x84, 0xff, 0xff, 0xff, 0xff}, {0x84, 0x7f, 0xff, 0xff, 0xff}, {0x83, 0xff, 0xff, 0xff}, {0x81, 0x00}, {0x00}, {0x7f}, {0x88, 1, 2, 3, 4, 5, 6, 7, 8}} {
+			for _, lb := range [][]byte{{0x80}, {0x84, 0xff, 0xff, 0xff, 0xff}, {0x84, 0x7f, 0xff, 0xff, 0xff}, {0x83, 0xff, 0xff, 0xff}, {0x81, 0x00}, {0x00}, {0x7f}, {0x88, 1, 2, 3, 4, 5, 6, 7, 8},
+				{0x88, 0x80, 0, 0, 0, 0, 0, 0, 0}, {0x88, 0xff, 0xff, 0xff, 0xff, 0xff, 0xff, 0xff, 0xff}, {0x88, 0x7f, 0xff, 0xff, 0xff, 0xff, 0xff, 0xff, 0xff},
+				{0x85, 1, 0, 0, 0, 0}, {0x89, 0, 0, 0, 0, 0, 0, 0, 0, 1}, {0xff}, {0x84, 0x80, 0, 0, 0}, {0x82, 0xff, 0xff}, {0x88, 0, 0, 0, 0, 0, 0, 0, 5}} {
 				m := append(append(append([]byte(nil), blob[:n.Start+1]...), lb...), blob[n.Start+n.HdrLen:]...)
 				add(m, "der-length", fmt.Sprintf("%x", lb[0]))
 			}
